@@ -59,6 +59,7 @@ VP_INLINE void do_op(int op) noexcept
             P2 v = g_w->load();
             vp_assert(v.a == v.b, 1500);                 // a load never returns a partially written value
             vp_hist_end(i, v.a, 0);
+            vp_log(1500, v.a);
             break;
         }
         case OP_STORE: {
@@ -82,6 +83,7 @@ VP_INLINE void do_op(int op) noexcept
             P2 old = g_w->exchange(P2(x));
             vp_assert(old.a == old.b, 1501);
             vp_hist_end(i, old.a, 0);
+            vp_log(1501, old.a);
             break;
         }
         case OP_CAS: {
@@ -93,6 +95,7 @@ VP_INLINE void do_op(int op) noexcept
             vp_assert(expected.a == expected.b, 1502);
             if (ok) vp_assert(expected.a == e, 1503);    // success leaves 'expected' alone
             vp_hist_end(i, ok ? 1 : 0, expected.a);
+            vp_log(1502, (ok ? 100 : 0) + expected.a);
             break;
         }
 #endif
